@@ -35,7 +35,7 @@ def collect():
                 rows[(f[0], f[1])] = (f[2], f[3])
     # batches in the order they were started (re-runs after a strengthening come last)
     files = []
-    for pat in ("mut2-results-*", "seed2-results-*", "seed2b-results-*", "seed2c-results-*", "rerun-results-*", "regr-results-*"):
+    for pat in ("mut2-results-*", "seed2-results-*", "seed2b-results-*", "seed2c-results-*", "rerun-results-*", "regr-results-*", "regr2-results-*"):
         files += sorted(glob.glob(f"{ROOT}/target/{pat}.txt"))
     for fn in files:
         for l in open(fn):
@@ -119,6 +119,9 @@ def main():
     o.append("\n## Changes written by independent sub-agents, round 4 (`/verif/seeded4/<id>/`)\n")
     o.append("All three earlier changes described; asked for what they left untouched (another entry point, trait impl, input size, builder option, thread placement).\n")
     o.append(table_seeds("seeded4"))
+    o.append("\n## Changes written by independent sub-agents, round 5 (`/verif/seeded5/<id>/`)\n")
+    o.append("All four earlier changes described; asked for another clause, entry point, trait impl, wrapper, input class or boundary, thread placement, builder option, type parameter or feature interaction.\n")
+    o.append(table_seeds("seeded5"))
     rb = f"{ROOT}/seeded/ROBUSTNESS.tsv"
     if os.path.exists(rb):
         o.append("\n## Seed robustness of the concurrency-dependent catches\n")
